@@ -433,6 +433,7 @@ func genValue(rt *rapid.T, t reflect.Type) c11Rendered {
 			r.label("set")
 		case t.Elem().Kind() == reflect.Slice: // map[string][]string
 			keys := []string{}
+			valued := false
 			for i := 0; i < n; i++ {
 				var k string
 				if len(keys) > 0 && rapid.IntRange(0, 2).Draw(rt, "msl_repeat") == 0 {
@@ -442,15 +443,26 @@ func genValue(rt *rapid.T, t reflect.Type) c11Rendered {
 					k = genKey(rt, i)
 					keys = append(keys, k)
 				}
-				s := genString(rt)
+				s := genMapString(rt, i)
 				ktxt, _ := quoteElem(rt, k, true)
-				vtxt, lab := quoteElem(rt, s, true)
-				r.label("elem:" + lab)
 				sv := s
 				r.Val.M = append(r.Val.M, C11KV{K: k, V: C11Val{S: &sv}})
-				parts = append(parts, ktxt+":"+rapid.SampledFrom([]string{"", "", " "}).Draw(rt, "colon_sp")+vtxt)
+				parts = append(parts, mapEntryText(rt, r, ktxt, s, valued))
+				valued = valued || s != ""
 			}
 			r.label("map-of-slices")
+		case t.Elem().Kind() == reflect.String: // map[string]string, Labels
+			valued := false
+			for i := 0; i < n; i++ {
+				k := genKey(rt, i)
+				s := genMapString(rt, i)
+				ktxt, _ := quoteElem(rt, k, true)
+				sv := s
+				r.Val.M = append(r.Val.M, C11KV{K: k, V: C11Val{S: &sv}})
+				parts = append(parts, mapEntryText(rt, r, ktxt, s, valued))
+				valued = valued || s != ""
+			}
+			r.label("map")
 		default:
 			for i := 0; i < n; i++ {
 				k := genKey(rt, i)
@@ -470,6 +482,36 @@ func genValue(rt *rapid.T, t reflect.Type) c11Rendered {
 		r.Val, r.Text = genScalar(rt, t, r, true)
 	}
 	return *r
+}
+
+// genMapString draws a string-typed map value; entries after the first are
+// the empty string fairly often so that value-less entries follow valued ones.
+func genMapString(rt *rapid.T, i int) string {
+	if i > 0 && rapid.IntRange(0, 2).Draw(rt, "map_empty_value") == 0 {
+		return ""
+	}
+	return genString(rt)
+}
+
+// mapEntryText renders one key:value entry of a string-valued map (or of a
+// map[string][]string).  An entry without a value token -- `k` or `k:` -- has
+// the empty text as its value (observed on the unmodified parse package for
+// every map kind that goes through splitMap: "" for string values, an
+// appended "" element for []string values, a cast error for other values).
+func mapEntryText(rt *rapid.T, r *c11Rendered, ktxt, val string, afterValued bool) string {
+	if val == "" {
+		switch rapid.IntRange(0, 3).Draw(rt, "valueless_style") {
+		case 0, 1:
+			r.label("map:value-less-entry")
+			if afterValued {
+				r.label("map:value-less-after-valued")
+			}
+			return ktxt + rapid.SampledFrom([]string{"", ":"}).Draw(rt, "valueless_colon")
+		}
+	}
+	vtxt, lab := quoteElem(rt, val, true)
+	r.label("elem:" + lab)
+	return ktxt + ":" + rapid.SampledFrom([]string{"", "", " "}).Draw(rt, "colon_sp") + vtxt
 }
 
 // genElem draws one element of a slice or one map value and its text.
@@ -495,6 +537,24 @@ func genElem(rt *rapid.T, t reflect.Type, r *c11Rendered, inMap bool) (C11Val, s
 }
 
 // ---- texts that must be rejected ----
+
+// goodScalarText is an acceptable text for a non-string scalar type.
+func goodScalarText(t reflect.Type) string {
+	switch t.Kind() {
+	case reflect.Bool:
+		return "true"
+	case reflect.Int, reflect.Int8, reflect.Int16, reflect.Int32, reflect.Int64:
+		if t == durationT {
+			return "10s"
+		}
+		return "10"
+	case reflect.Uint, reflect.Uint8, reflect.Uint16, reflect.Uint32, reflect.Uint64, reflect.Float32, reflect.Float64:
+		return "10"
+	case reflect.Complex64, reflect.Complex128:
+		return "1+2i"
+	}
+	return ""
+}
 
 // badTexts lists texts that are unparsable or just out of range for type t
 // (nil when every text is acceptable, as for strings).
@@ -568,6 +628,11 @@ func badTexts(t reflect.Type) []string {
 			return []string{"a:1,a:2", ":v", "a:b:c", `a:"x`, `a:b,"a":c`}
 		}
 		out := []string{":1", "a:1:2", `a:"1`}
+		// a value-less entry has the empty text as its value, which no scalar
+		// other than a string accepts -- also right after a valued entry
+		if g := goodScalarText(t.Elem()); g != "" {
+			out = append(out, "a:"+g+",b", "a:"+g+",b:", "a:"+g+",b:,c:"+g, "a:"+g+", b", `a:"`+g+`",b:`)
+		}
 		for _, b := range badTexts(t.Elem()) {
 			if strings.ContainsAny(b, " ") {
 				continue
